@@ -96,6 +96,10 @@ Lemma resolve_ns_loop_good st is : forall d, good (fun _ => True) (resolve_ns_lo
 Proof. induction is; intros; cbn [resolve_ns_loop]; gauto. Qed.
 Hint Resolve resolve_ns_loop_good : good.
 
+Lemma ns_range_checked_good a e : good (fun _ => True) (ns_range_checked a e).
+Proof. unfold ns_range_checked. gauto. Qed.
+Hint Resolve ns_range_checked_good : good.
+
 Lemma resolve_namespaces_good c : good (fun p => kd c (snd p)) (resolve_namespaces text c).
 Proof. unfold resolve_namespaces. gauto. Qed.
 Hint Resolve resolve_namespaces_good : good.
